@@ -16,7 +16,7 @@ from common.util import Result, err_kind
 from common import nets
 
 ID = 'C15'
-N = {'quick': 1200, 'thorough': 24000}
+N = {'quick': 800, 'thorough': 16000}
 LEAN_MODULES = ['GnpyProofs.Props.C15']
 THEOREMS = [f'Gnpy.Slots.{t}' for t in (
     'slots_roundtrip', 'frequency_roundtrip', 'bitmap_length', 'usable_iff_in_common_band', 'inBands_iff_frequency',
